@@ -26,8 +26,23 @@ for generated programs are compared as a diagnostic only (SPEC-DRIFT).
 Not judged: page layout, titles, cross reference / usage lists, float and string symbols, symbols local to
 sections, bit symbols printed through DissectBit, rows of lines whose listing is suppressed.
 
-Known defect of the pinned tree (known_findings/C19.json): -listradix is ignored for addresses and code of the
-listing (hex digits in columns of the requested radix' width), see proposed_fixes/C19-listradix-ignored.diff.
+Known defects of the pinned tree (known_findings/C19.json): (1) -listradix is ignored for addresses and code of
+the listing (hex digits in columns of the requested radix' width), proposed_fixes/C19-listradix-ignored.diff: on
+the unfixed tree a rejected listing with radix != 16 is read again with hexadecimal digits and, if TLC accepts it
+then, reported as that known finding; (2) ALIGN that needs no fill still writes a line:address entry,
+proposed_fixes/C19-align-empty-lineinfo.diff.  On a copy with both fixes all 201 golden sources are accepted at
+radix 2, 8, 10, 16 and 36.
+
+Mutations of the real code tried on a scratch copy (selftest/C19-m*.py, selftest/mutate_and_check.sh); all six
+keep the 201 ctest tests green (no test reads a listing) and all six are caught:
+  m1 asmlist.c: ListPC = ProgCounter() - CodeLen (phase ignored)        rows under PHASE rejected
+  m2 asmlist.c: ListPC += 1 for every unit                              continuation rows (68000 word units)
+  m3 asmsub.c: AddLineInfo(..., EProgCounter(), ...)                     MAP line:address under PHASE
+  m4 asmpars.c: MAP symbol values printed in radix 10                    SYM(map) events
+  m5 asmdebug.c: NoICE LINE offsets not relative to FILE start           MAPLINE events
+  m6 asmlist.c: byte tail switch `>=` instead of `>`                     last word of a line listed as bytes
+./check C19 --selftest shows the binding on a small program (changed listed byte / continuation address / share
+value / MAP address / code-file byte are each rejected).
 """
 import os
 import shutil
@@ -162,7 +177,7 @@ def case_events(trace, files, base, radix, share_kind, debug_kind, pbytes, readi
                 continue                  # section-local, no integer, bit symbol (printed by DissectBit), string
             neg = vtxt.startswith("-")
             v = listing.parse_int(vtxt.lstrip("-"), radix)
-            ev.append({"a": "SYM", "src": "lst", "name": n.upper(),
+            ev.append({"a": "SYM", "src": "lst", "name": n.upper(), "fmt": "",
                        "val": listing.canon(-v if neg else v) if v is not None else "?"})
             stats["syms"] += 1
     ev.append({"a": "EMITS"})
@@ -184,14 +199,14 @@ def case_events(trace, files, base, radix, share_kind, debug_kind, pbytes, readi
         for (n, sect, typ, vtxt, segn) in ms:
             if sect is None and typ == "Int" and n.upper() in vals:
                 v = listing.parse_int(vtxt.lstrip("-"), 16)
-                ev.append({"a": "SYM", "src": "map", "name": n.upper(),
+                ev.append({"a": "SYM", "src": "map", "name": n.upper(), "fmt": "",
                            "val": listing.canon(-v if vtxt.startswith("-") else v) if v is not None else "?"})
                 stats["syms"] += 1
     if debug_kind == "NOICE" and files.get(base + ".noi") is not None:
         defs, nl = listing.parse_noice(files[base + ".noi"].decode("latin-1"))
         for (n, v) in defs:
             if n.upper() in vals:
-                ev.append({"a": "SYM", "src": "noi", "name": n.upper(), "val": listing.canon(v)})
+                ev.append({"a": "SYM", "src": "noi", "name": n.upper(), "fmt": "", "val": listing.canon(v)})
                 stats["syms"] += 1
         for (fil, ln, addr) in nl:
             ev.append({"a": "MAPLINE", "seg": 1, "line": ln, "addr": listing.split24(addr),
@@ -217,8 +232,8 @@ def case_events(trace, files, base, radix, share_kind, debug_kind, pbytes, readi
                 continue
             for (n, vtxt) in listing.parse_share(sh.decode("latin-1"), share_kind):
                 if n.upper() in vals:
-                    v = listing.parse_intconst(vtxt)
-                    ev.append({"a": "SYM", "src": "share-" + share_kind, "name": n.upper(),
+                    v, fmt = listing.parse_intconst(vtxt)
+                    ev.append({"a": "SYM", "src": "share-" + share_kind, "name": n.upper(), "fmt": fmt,
                                "val": listing.canon(v) if v is not None else "?"})
                     stats["syms"] += 1
     return ev, stats
